@@ -1492,7 +1492,9 @@ def _sinks(fb, R, rule, classes, encq, fwq):
                 if verdict == 'escaped':
                     R.ok(rule, key, site)
                 elif verdict == 'read':
-                    R.ok(rule, key + '#char-test', site)      # only single characters / the length are read, nothing is written
+                    # only single characters / the length are read (an emptiness guard): nothing is written, so this is not an
+                    # obligation of its own -- the instance census must not depend on how a guard condition is spelled
+                    R.note('%s: %s at %s is only read (%s)' % (rule, c['q'], site, what))
                 else:
                     R.bad(rule, key, site, 'object string %s is handed to %s instead of %s: markup / delimiter characters reach the output unescaped'
                           % (c['q'], what, encq))
@@ -1640,7 +1642,7 @@ def run(ctx):
     R.expect('R2-utf8-encoder-table', 5)
     R.expect('X1-xml-entity-table', 9)               # 8 characters + default
     R.expect('X3-xml-text-chunks-appended', 1)
-    R.expect('X2-xml-strings-escaped', 10)           # 7 object strings (+1 emptiness test) + generator + xml_josm_upload
+    R.expect('X2-xml-strings-escaped', 9)            # 7 object strings written + generator + xml_josm_upload (read-only uses are not instances)
     R.expect('N1-cursor-advance-guarded', 5)
     R.expect('N2-utf8-decode-bounded', 11)
     R.expect('N3-utf8-length-table', 7)
